@@ -13,9 +13,9 @@
 (* It is a behaviour iff the ROM accepts those bytes and decodes, section for section and command for command,       *)
 (* what the language semantics prescribe for the program - no SPSDK object is consulted anywhere on the way.         *)
 EXTENDS Sb2RomTrace
-VARIABLES env, iopts, sopts, secs, phase
+VARIABLES env, iopts, sopts, secs, phase, kbs
 B == INSTANCE BdProg
-svars == <<tvars, env, iopts, sopts, secs, phase>>
+svars == <<tvars, env, iopts, sopts, secs, phase, kbs>>
 
 Lim(x) == <<x \div 65536, x % 65536>>                          \* BD values stay below 2^27
 MemSplit(m) == <<(m \div 256) % 16, m % 256>>                  \* memory id = group << 8 | device
@@ -36,11 +36,12 @@ ToRom(c) ==
 
 LInit == TInit /\ B!PInit
 KeepRom == UNCHANGED <<rvars, pend, psec, pcmd>>
-KeepProg == UNCHANGED <<env, iopts, sopts, secs, phase>>
+KeepProg == UNCHANGED <<env, iopts, sopts, secs, phase, kbs>>
 \* ---- the program (semantics of C19)
 LDefOption    == Is("DefOption") /\ st = "Header" /\ B!DefOption(E.n, E.e) /\ KeepRom /\ Adv
 LDefOptionStr == Is("DefOptionStr") /\ st = "Header" /\ B!DefOptionStr(E.n, E.v) /\ KeepRom /\ Adv
 LDefConst     == Is("DefConst") /\ st = "Header" /\ B!DefConst(E.n, E.e) /\ KeepRom /\ Adv
+LDefKeyblob   == Is("DefKeyblob") /\ st = "Header" /\ B!DefKeyblob(E.id, E.lo, E.hi, E.key, E.ctr) /\ KeepRom /\ Adv
 LBeginSection == Is("BeginSection") /\ st = "Header" /\ B!BeginSection(E.id) /\ KeepRom /\ Adv
 LStmt         == Is("Stmt") /\ st = "Header" /\ B!Stmt(E.st) /\ KeepRom /\ Adv
 \* ---- the link (contract of C10, fault-free case): the call reports success and the device holds the file, once, in order
@@ -57,6 +58,6 @@ LCmd  == /\ TCmd /\ KeepProg
          /\ Matches(E, ToRom(secs[SecIx].cmds[E.i + 1]))                                             \* command for command
 LSecEnd == TSecEnd /\ KeepProg /\ (~needCert => SecIx <= Len(secs) /\ Len(dec[SecIx].cmds) = Len(secs[SecIx].cmds))    \* no command missing
 LAccept == TAccept /\ KeepProg /\ sec = Len(secs)                                                   \* no section missing
-LNext == LDefOption \/ LDefOptionStr \/ LDefConst \/ LBeginSection \/ LStmt \/ LSent
+LNext == LDefOption \/ LDefOptionStr \/ LDefConst \/ LDefKeyblob \/ LBeginSection \/ LStmt \/ LSent
          \/ LRom(TParseHeader) \/ LRom(TUnwrap) \/ LRom(THdrMac) \/ LRom(TCert) \/ LRom(TSig) \/ LRom(TSha) \/ LTag \/ LRom(THmac) \/ LCmd \/ LSecEnd \/ LAccept
 =============================================================================
